@@ -89,7 +89,10 @@ PROPS_RAW = {
              J("shared_guarded_opt.disabled", "wl_shared_guarded_opt", 40000, 600000,
                mode="handle", disabled=1)]},
     "C15": {"jobs": wrappers("reg", ["atomic_guarded", "guarded", "guarded_opt", "ordered_guarded",
-                                     "deferred_rw"], 100000, 2500000)},
+                                     "deferred_rw"], 100000, 2500000) +
+            # the other corner of the template-argument space: word-sized trivially copyable
+            # element types (and std::string), race detector on
+            [J("atomic_small", "wl_atomic_small", 100000, 2500000, races=1)]},
     "C03": {"jobs": [J("lr.std", "wl_lr", 200000, 6000000, mode="std"),
                      # the statement quantifies over the memory-model behaviours of the atomics:
                      # an unordered reader/writer pair on the payload is a C03 violation too
@@ -109,7 +112,10 @@ PROPS_RAW = {
                      J("rcu.std.blob", "wl_rcu", 40000, 1000000, mode="std", elem=2),
                      # traversals made entirely while a writer is parked inside push/erase
                      J("rcu.freeze", "wl_rcu", 40000, 1000000, mode="freeze", elem=0),
-                     J("rcu.window", "wl_rcu", 40000, 1000000, mode="window", elem=0)]},
+                     J("rcu.window", "wl_rcu", 40000, 1000000, mode="window", elem=0),
+                     # M = std::recursive_mutex (documented as supported) with an element
+                     # constructor that pushes to the same list from inside emplace_*
+                     J("rcu.reenter", "wl_rcu_reent", 30000, 800000)]},
     "C13": {"jobs": [J("rcu.c13.tracked", "wl_rcu", 60000, 1500000, mode="c13", elem=0),
                      J("rcu.c13.string", "wl_rcu", 60000, 1500000, mode="c13", elem=1),
                      J("rcu.c13.blob", "wl_rcu", 40000, 1000000, mode="c13", elem=2)]},
